@@ -369,6 +369,10 @@ class UpdateCollection(Message):
             # Attributes-only UPDATE (Empty NLRI case)
             if has_empty_nlri and self._attributes:
                 attr = self.attributes.pack_attribute(negotiated, with_default=True)
+                if 19 + 2 + 2 + len(attr) > negotiated.msg_size:
+                    # no message rather than an oversized one (a 4448 byte UPDATE left on a 4096 byte session)
+                    log.critical(lazymsg('update.pack.error reason=attributes_too_large'), 'parser')
+                    return
                 # Generate UPDATE with no withdrawn routes and no NLRI, just attributes
                 yield self._message(UpdateCollection.prefix(b'') + UpdateCollection.prefix(attr))
             return
